@@ -647,3 +647,28 @@ pub fn len_class(n: usize) -> &'static str {
         _ => "len>16384",
     }
 }
+
+/// Offset shaping: make an explicit-width master start exactly when 2^(7w)-1 (or a neighbouring number of) bytes of its
+/// known-size parent's content precede it, by inserting a Void sibling of the right total length in front of it.
+pub fn shape_offset_boundary(rng: &mut Rng, nodes: &mut [Node]) -> bool {
+    let cands: Vec<usize> = nodes.iter().enumerate().filter(|(_, n)| n.is_master() && n.opt != SizeOpt::Unknown && n.children.iter().any(|c| c.is_master())).map(|(i, _)| i).collect();
+    if cands.is_empty() {
+        return false;
+    }
+    let k = &mut nodes[*rng.pick(&cands)];
+    let js: Vec<usize> = k.children.iter().enumerate().filter(|(_, c)| c.is_master()).map(|(j, _)| j).collect();
+    let j = *rng.pick(&js);
+    let (w, t): (usize, u64) = *rng.pick(&[(1usize, 127u64), (1, 127), (2, 16383), (1, 126), (1, 128), (2, 16384)]);
+    let before: u64 = k.children[..j].iter().map(total_len).sum();
+    if before + 2 > t {
+        return false;
+    }
+    let need = t - before; // total encoded length of the Void to insert
+    let payload = match (2..=5u64).find(|h| need >= *h && crate::refcodec::min_size_width(need - h).map(|x| x as u64 + 1) == Some(*h)) {
+        Some(h) => need - h,
+        None => return false,
+    };
+    k.children[j].opt = SizeOpt::Width(w);
+    k.children.insert(j, Node::leaf(Item::B(VOID_ID, rng.bytes(payload as usize))));
+    true
+}
